@@ -3,6 +3,7 @@ package main
 import (
 	stderrors "errors"
 	"fmt"
+	"strings"
 	"time"
 
 	"cvh/lib"
@@ -71,6 +72,7 @@ type execResult struct {
 	Comp    uint64 `json:"computation_used"`
 	Mem     uint64 `json:"memory_used"`
 	ErrType string `json:"error_type,omitempty"`
+	Sig     string `json:"error_signature,omitempty"` // recognised internal-error site
 	Escaped string `json:"escaped_panic,omitempty"`
 	Millis  int64  `json:"ms"`
 }
@@ -126,6 +128,13 @@ func execute(c execCase) (res execResult) {
 		res.Class = lib.ECrash
 	} else {
 		res.Class, res.User, res.ErrType = classify(o.Err)
+		if res.Class == lib.EInternal || res.Class == lib.ECrash {
+			// bbq/compiler: the deferred popControlFlow of a loop/switch runs while a panic (e.g. the memory-limit
+			// error) unwinds and panics itself with "unreachable" (patchJump with target 0), masking the first panic
+			if msg := o.Err.Error(); strings.Contains(msg, "popControlFlow") && strings.Contains(msg, "patchJump") {
+				res.Sig = "vm-compiler-popControlFlow-masks-panic"
+			}
+		}
 	}
 	if iv, ok := o.Value.(cadence.Int); ok {
 		res.Value = iv.Big().String()
